@@ -147,6 +147,28 @@ CHECKS = {
              'family x socket type, option levels, a whole dump through the front-end, log timestamps).',
         note='Other platforms are modelled by table substitution inside one CPython; trusted base vlib/darwin_ref.py.',
         technique='host-substitution differential (subprocess per host) + reference-name oracle'),
+    'C15': dict(
+        category='exploration', design_ref='DESIGN.md section 4, C15',
+        text='Runtime monitoring with a lock-step reference model: generated streams of image announcements '
+             '(stand-alone and inside launch windows; duplicate, adjacent, equal addresses) interleaved with user-stack '
+             'samples go through the real TracesParser + CallstacksParser and through PyKdebugParser.callstacks (twice '
+             'on one object); one callstack per stack sample, START stamp, first-N frames and per-frame attribution '
+             '(greatest announced address <= frame, first identity kept, offset >= 0) are compared with the model; an '
+             'icontract class invariant checks the sorted parallel lists; announcement order is permuted.',
+        note='Images announced while a sample/launch window is open are accepted either way. Trusted: 20-line model in '
+             'props/c15.py.',
+        technique='reference-model monitor in lock-step + icontract class invariant + permutation metamorphism + '
+                  'repeated-request history'),
+    'C20': dict(
+        category='exploration', design_ref='DESIGN.md section 4, C20',
+        text='Runtime monitoring: page-fault windows (result zero/non-zero x 11 fault types x 0..3 nested real-fault '
+             'records of the four kinds in every order), launch windows (0..8 map/shared-cache records with address '
+             'ties) and sampler windows (all combinations of the two flags x presence of thread-data/header/data '
+             'records), each mixed with unrelated same-thread records, are fed to the real parser and the fields of '
+             'the composite traces are compared with a reference computed from the window.',
+        note='Either answer is accepted when the first nested real-fault record is of the undecoded kind; with a '
+             'non-zero result pid/protection may be absent.',
+        technique='generated-window workload + field-level reference oracle on the emitted composite traces'),
 }
 
 PENDING_REASON = 'check not yet built in this session (design in DESIGN.md section 4); not claimed until it exists'
